@@ -752,6 +752,21 @@ class FnEmitter:
             k += 1
 
 
+        # R19: `String::from(E)` -> `verif_string_from(E)` (spec/std_eq.rs: the string of the characters of E).  vstd has no
+        # specification of `<String as From<&str>>::from` and Verus cannot be given one (its signature carries an impl-level
+        # lifetime binder assume_specification cannot name), so the result was an arbitrary string (8.53)
+        for k in range(bopen + 1, bclose - 4):
+            if toks[k].kind == 'id' and toks[k].text == 'String' and not any(wa <= toks[k].start < wb for wa, wb in wrapped):
+                a = next_sig(toks, k)
+                a2 = next_sig(toks, a)
+                b = next_sig(toks, a2)
+                c = next_sig(toks, b)
+                pk = prev_sig(toks, k)
+                if toks[a].text == ':' and toks[a2].text == ':' and toks[b].kind == 'id' and toks[b].text == 'from' and toks[c].text == '(' \
+                        and not (toks[pk].kind == 'p' and toks[pk].text == ':'):
+                    edits.append((toks[k].start, toks[b].end, 'verif_string_from', None))
+                    self.counts['R19'] = self.counts.get('R19', 0) + 1
+
         # R15: the node heap.  `Rc<RefCell<SolutionNode>>` cannot be declared to Verus (RefCell has no specification, the
         # nodes form a graph with parent links).  In a function named by the unit directive `heap-functions` the contents
         # of the nodes are kept in a ghost heap (spec/solver.rs) that is passed along, and every access through the
